@@ -23,6 +23,7 @@ import (
 	"github.com/ollama/ollama/ml"
 	"github.com/ollama/ollama/model"
 	"github.com/ollama/ollama/model/input"
+	"github.com/ollama/ollama/runner/common"
 	"github.com/ollama/ollama/sample"
 	"github.com/ollama/ollama/zzverif"
 )
@@ -353,6 +354,17 @@ func verifLoopL2(out *zzverif.Out, line string, stops []string, script []verifEv
 	}
 	if res.reason == "running" {
 		out.Count("running")
+		// which hold of stepPiece kept the pending pieces back (classification only; by the real predicates)
+		if len(res.pending) > 0 {
+			j := strings.Join(res.pending, "")
+			if common.ContainsStopSuffix(j, stops) {
+				out.Count("branch_hold_stop_suffix")
+			} else if common.IncompleteUnicode(j) {
+				out.Count("branch_hold_incomplete_unicode")
+			}
+		} else if res.consumed > 0 {
+			out.Count("branch_flush_all")
+		}
 		if vp {
 			// nothing may have been lost: out ++ pending = gen
 			if o+strings.Join(res.pending, "") != g {
@@ -458,6 +470,9 @@ func verifLoopL2(out *zzverif.Out, line string, stops []string, script []verifEv
 		}
 	} else {
 		// ends at EOS or at the limit: everything generated, except a trailing incomplete character
+		if o != g {
+			out.Count("branch_final_flush_trims")
+		}
 		if o != verifTrimTail(g) {
 			out.L2("ends-eos-limit", line, fmt.Sprintf("cause=%s out=%x gen=%x", cause, o, g))
 		}
